@@ -32,6 +32,7 @@ FIELDS = {
     "unicode": ["alpha", "beta_gamma", "delta"],
     # not keywords as written, but keywords once a backend normalises them (snake_case drops edge underscores, lower-cases)
     "kw_py_edge": ["from_", "in_", "_return"],
+    "underscore_digit": ["alpha", "beta_gamma", "delta"],
 }
 VARIANTS = {
     "plain": ["Alpha", "BetaGamma", "Delta"], "kw_swift": ["default", "case", "protocol"], "kw_py": ["from", "def", "pass"],
@@ -41,6 +42,8 @@ VARIANTS = {
     "kw_dashed": ["default", "BetaGamma", "protocol"], "kebab_kw": ["default", "AlphaOne", "case"],
     "unicode": ["Alpha", "BetaGamma", "Delta"],
     "kw_py_edge": ["Alpha", "BetaGamma", "Delta"],
+    # variant identifiers that start with an underscore followed by a digit: a case conversion that drops the underscore leaves a digit first
+    "underscore_digit": ["_2FA", "_3dSecure", "_1Tap"],
 }
 RENAMES = {"dashed": ["alpha-one", "beta-two", "x-y-z"], "kw_dashed": [None, "beta-two", None], "digit": ["1st", "2nd", "3rd"], "quote": ['al"pha', "be'ta", 'de"l"ta'],
            # wire names with a combining mark, an emoji + variation selector, a zero-width joiner (printable text is not all there is)
